@@ -1,12 +1,13 @@
 #!/usr/bin/env python3
-"""tools/benign_matrix.py <patch.diff ...> — false-alarm test.  Each patch is a behaviour-preserving
+"""tools/benign_matrix.py [patch.diff ...] — false-alarm test (default: the committed corpus benign/*/patch-*.diff).  Each patch is a behaviour-preserving
 maintenance edit (rename, extract helper, reorder, comments ...) written by a sub-agent that never
 saw /verif.  Every patch is applied to a scratch worktree of /repo (never to /repo itself) and all
 claimed checks are run against it with --repo: every one of them must stay silent (exit 0).
 Prints one line per patch; writes benign/RESULTS.json."""
 import json, os, subprocess, sys, tempfile, shutil
 V = os.path.dirname(os.path.dirname(os.path.abspath(__file__)))
-patches = sys.argv[1:]
+import glob
+patches = sys.argv[1:] or sorted(glob.glob(os.path.join(V, "benign", "*", "patch-*.diff")))
 checks = [c["property_id"] for c in json.load(open(os.path.join(V, "MANIFEST.json")))["checks"]]
 only = os.environ.get("CHECKS")
 if only:
